@@ -25,6 +25,7 @@ var c06Consumes = [][]string{
 	{"*/*"},
 	{},
 	{"text/csv", "image/*"},
+	{"text/plain; charset=utf-8", "application/xml"}, // an entry spelled with a parameter
 }
 
 var c06Registered = []string{"application/json", "text/plain", "application/xml", "text/csv", "image/png", "application/octet-stream"}
@@ -218,6 +219,15 @@ func VerifC06Gate() {
 		}
 		if a == "*/*" || (slash > 0 && strings.Count(mt, "/") == 1 && strings.EqualFold(a, mt[:slash]+"/*")) {
 			wildcard = true
+		}
+	}
+	// a consumes entry spelled with a parameter whose bare type is the request's:
+	// the statement does not say whether it admits the bare type; only the
+	// agreement of the two entry points (asserted above) is demanded there
+	for _, a := range allowed {
+		if k := strings.IndexByte(a, ';'); k > 0 && strings.EqualFold(strings.TrimSpace(a[:k]), mt) && !direct {
+			zv.Reach("parameterised-entry")
+			return
 		}
 	}
 	switch {
